@@ -18,6 +18,7 @@
 package logical
 
 import (
+	"cmp"
 	"fmt"
 	"math"
 	"strconv"
@@ -64,7 +65,8 @@ func newInt64Literal(val int64) *int64Literal {
 
 func (i *int64Literal) Compare(other LiteralExpr) (int, bool) {
 	if o, ok := other.(*int64Literal); ok {
-		return int(i.int64 - o.int64), true
+		// not int(i.int64 - o.int64): the difference wraps for operands more than 2^63 apart
+		return cmp.Compare(i.int64, o.int64), true
 	}
 	return 0, false
 }
@@ -481,11 +483,11 @@ func (t *timestampLiteral) Compare(other LiteralExpr) (int, bool) {
 	if o, ok := other.(*timestampLiteral); ok {
 		thisNanos := t.timestamp.AsTime().UnixNano()
 		otherNanos := o.timestamp.AsTime().UnixNano()
-		return int(thisNanos - otherNanos), true
+		return cmp.Compare(thisNanos, otherNanos), true
 	}
 	if o, ok := other.(*int64Literal); ok {
 		thisNanos := t.timestamp.AsTime().UnixNano()
-		return int(thisNanos - o.int64), true
+		return cmp.Compare(thisNanos, o.int64), true
 	}
 	return 0, false
 }
